@@ -43,9 +43,9 @@ class LinearProx(SxContract):
     def build(self, ctx):
         W = sx.sym_array(ctx, "w", (self.d, self.h), lo=-2, hi=2)
         alpha = ctx.var("alpha", "+", lo=0.05, hi=2.5)
-        if self.structure == "zero_row":
+        if self.structure in ("zero_row", "zero_row_alpha0"):
             W[0, :] = [sx.Sx(dag.ZERO)] * self.h
-        if self.structure == "alpha0":
+        if self.structure in ("alpha0", "zero_row_alpha0"):      # the corner alpha == 0 AND an all-zero row is in scope too
             alpha = sx.Sx(dag.ZERO)
         if self.structure == "tie":
             # row 0 = (3,4,0..)*t/5 scaled so that its norm is exactly alpha
@@ -85,9 +85,10 @@ class GroupLinearProx(SxContract):
     entries restored to their positions, for the given partition."""
     fn = "gemclus.sparse._prox_grad.group_linear_prox_grad"
 
-    def __init__(self, d, h, groups, zero_group=None):
-        self.d, self.h, self.groups, self.zero_group = d, h, [list(g) for g in groups], zero_group
-        self.label = f"group_linear_prox_grad[d={d},h={h},groups={self.groups}" + (f",zero group {zero_group}]" if zero_group is not None else "]")
+    def __init__(self, d, h, groups, zero_group=None, alpha0=False):
+        self.d, self.h, self.groups, self.zero_group, self.alpha0 = d, h, [list(g) for g in groups], zero_group, alpha0
+        self.label = (f"group_linear_prox_grad[d={d},h={h},groups={self.groups}" + (f",zero group {zero_group}" if zero_group is not None else "")
+                      + (",alpha0" if alpha0 else "") + "]")
 
     def patches(self):
         return np_patches(PG)
@@ -97,7 +98,8 @@ class GroupLinearProx(SxContract):
         if self.zero_group is not None:
             for f in self.groups[self.zero_group]:
                 W[f, :] = sx.Sx(dag.ZERO)        # a group whose weights are all exactly zero (e.g. constant columns)
-        return {"W": W, "alpha": ctx.var("alpha", "+", lo=0.05, hi=2.5)}
+        alpha = ctx.var("alpha", "+", lo=0.05, hi=2.5)
+        return {"W": W, "alpha": sx.Sx(dag.ZERO) if self.alpha0 else alpha}
 
     def body(self, inp):
         Z = PG.group_linear_prox_grad(self.groups, inp["W"].copy(), inp["alpha"])
